@@ -132,7 +132,8 @@ func (p *PortSet) Intersection(other *PortSet) {
 
 // IsAll: return true if current PortSet object contains all ports
 func (p *PortSet) IsAll() bool {
-	return p.Equal(MakePortSet(true))
+	// all port numbers, none excluded by name; named ports (which resolve to port numbers) add nothing to the full range
+	return p.Ports.Equal(MakePortSet(true).Ports) && len(p.ExcludedNamedPorts) == 0
 }
 
 const comma = ","
